@@ -822,6 +822,9 @@ fn families_of(prop: &str, tier: Tier) -> Vec<Cfg> {
             b.props = vec!["C11"];
             b.keepalive = 10;
             b.ops = a.ops.clone();
+            // (time may also pass between two calls: the round-trip bound runs out while nobody polls)
+            b.ops.push(OpK::Sleep);
+            b.sleeps = vec![5_000];
             b.io = IoMenu::benign();
             b.broker.mute_pingresp = true;
             b.max_ops = if q { 6 } else { 7 };
